@@ -133,6 +133,52 @@ def k_pdu(ctx, kind, cfg, p, model_fed=False, via="ctor", seed=0):
     ISO.recheck(ctx, "pdu.decoded_objects_independent", case)
 
 
+def k_conf_reuse(ctx, kind, seed):
+    """One caller-owned PduConfig used for several transactions: its id / sequence-number fields are updated in place
+    (field.value = n) and its flags reassigned between PDUs; every PDU built from it packs the values it had at that moment."""
+    import random
+    X = C.lib()
+    d = X.defs
+    r = random.Random(f"confreuse/{kind}/{seed}")
+    cfg = C.rand_cfg(r)
+    conf = C.lib_cfg(cfg, direction=r.getrandbits(1))
+    case = {"k": "conf_reuse", "kind": kind, "seed": seed}
+    ctx.case(f"conf_reuse/{kind}", (kind, seed), sample=case)
+    trail = []
+    for rnd in range(r.randrange(2, 5)):
+        if rnd:
+            how = r.choice(("int", "bytes"))
+            conv = (lambda v, w: v) if how == "int" else (lambda v, w: v.to_bytes(w, "big"))
+            for name, fld, w in (("src", conf.source_entity_id, cfg["idw"]), ("dst", conf.dest_entity_id, cfg["idw"]), ("seq", conf.transaction_seq_num, cfg["seqw"])):
+                if r.random() < 0.7:
+                    cfg[name] = rand_uint(r, 8 * w)
+                    fld.value = conv(cfg[name], w)
+                    trail.append(f"{name}.value={how}")
+            if r.random() < 0.5:
+                cfg["crc"] = r.getrandbits(1)
+                conf.crc_flag = d.CrcFlag(cfg["crc"])
+                trail.append("crc_flag")
+            if r.random() < 0.5:
+                cfg["mode"] = r.getrandbits(1)
+                conf.trans_mode = d.TransmissionMode(cfg["mode"])
+                trail.append("trans_mode")
+        p = C.rand_params(r, kind, cfg, rich=False)
+        want = C.ref_octets(kind, cfg, p)
+        ok, raw = attempt(lambda: bytes(_build_with_conf(kind, conf, p).pack()))
+        if not ctx.check("pdu.conf_reuse", ok and raw == want, "octets_of_pdu_built_from_updated_config", f"{kind}/" + (_where(kind, cfg, p, raw, want) if ok else "raised"),
+                         dict(case, round=rnd), trail=trail, expected=want[:64], observed=raw[:64] if ok else repr(raw)):
+            return
+        ok, u = attempt(X.CLS[kind].unpack, raw)
+        hexp = dict(R.decode_header(want), dst_w=cfg["idw"])
+        if not ctx.check("pdu.conf_reuse", ok and C.hdr_fields(u.pdu_header) == hexp, "decoded_header_of_pdu_built_from_updated_config", kind, dict(case, round=rnd), trail=trail):
+            return
+
+
+def _build_with_conf(kind, conf, p):
+    from . import c11
+    return c11._build_with_inputs(kind, conf, None, p)[0]
+
+
 def _enum_tables(ctx, kind, p):
     for k in ("cond", "delivery", "status", "cksum_type", "tstatus", "acked", "rr", "closure"):
         if k in p:
@@ -173,7 +219,7 @@ def k_oversize(ctx, kind, cfg, p):
         ctx.table("oversize_error_class", f"{kind}:{type(res).__name__}")
 
 
-KINDS = {"pdu": k_pdu, "oversize": k_oversize}
+KINDS = {"conf_reuse": k_conf_reuse, "pdu": k_pdu, "oversize": k_oversize}
 
 
 def selftest(ctx):
@@ -250,6 +296,9 @@ def run(ctx):
         kind = r.choice(("eof", "finished", "metadata", "nak", "keep_alive"))
         cfg = C.rand_cfg(r)
         k_pdu(ctx, kind, cfg, C.rand_params(r, kind, cfg), via="setters", seed=ctx.seed * 1_000_003 + ctx.shard[0] * 100_003 + j)
+    # one caller-owned configuration re-used (and updated in place) for several PDUs
+    for j in range(ctx.n(700, 50_000)):
+        k_conf_reuse(ctx, C.DIRECTIVE_KINDS[j % 7], ctx.seed * 1_000_003 + ctx.shard[0] * 100_003 + j)
     # values that do not fit the selected width
     for large, bad in ((0, (2 ** 32, 2 ** 32 + 1, 2 ** 63, 2 ** 64 - 1, 2 ** 64)), (1, (2 ** 64, 2 ** 64 + 1, 2 ** 70))):
         for v in bad:
